@@ -290,6 +290,8 @@ def run(repo, res, tier):
         if case.value is None or scalar_side(case.guards):
             continue
         r = case.stmt
+        if not any(isinstance(x, ast.Attribute) and isinstance(x.value, ast.Name) and x.value.id == op for x in ast.walk(case.value)) and not any(isinstance(x, ast.Call) for x in ast.walk(case.value) if isinstance(x, ast.Call) and isinstance(x.func, ast.Attribute) and isinstance(x.func.value, ast.Name) and x.func.value.id == "self" and x.func.attr not in ("_offset", "offset")):
+            continue  # the argument is used as a number here (no start / end / length of it is read): the number side
         n_sub += 1
 
         def atoms(e):
@@ -300,6 +302,10 @@ def run(repo, res, tier):
                 return "L2"
             if t in ("self.length",):
                 return "L1"
+            if t in ("self.end", "self._end"):
+                return "e1"
+            if t in ("self.start", "self._start"):
+                return "s1"
             if t in ("%s.end" % op, "%s._end" % op):
                 return "e2"
             if t in ("%s.start" % op, "%s._start" % op):
@@ -311,8 +317,12 @@ def run(repo, res, tier):
             val = ast.parse(canon(case.value, rd_c, r, params_c, helpers_c), mode="eval").body
         except SyntaxError:
             val = case.value
+        if not any(isinstance(x, ast.Attribute) and isinstance(x.value, ast.Name) and x.value.id == op for x in ast.walk(val)):
+            n_sub -= 1
+            continue  # the argument is used as a number here (no start / end / length of it is read): the number side
         facts = inequalities(val, True, atoms) if isinstance(val, ast.Compare) else []
-        want = [{"L1": 1, "o": -1, "L2": -1}, {"L1": 1, "o": -1, "e2": -1, "s2": 1}]
+        # the own length and the length of the argument may be written out as end - start
+        want = [{"L1": 1, "o": -1, "L2": -1}, {"L1": 1, "o": -1, "e2": -1, "s2": 1}, {"e1": 1, "s1": -1, "o": -1, "L2": -1}, {"e1": 1, "s1": -1, "o": -1, "e2": -1, "s2": 1}]
         ok = any(f in want and not strict for f, strict in facts)
         res.check("SUBSET", "AngleInterval.contains(interval): offset(start) + length(arg) <= own length", ok, mod, r, "AngleInterval.contains: %s" % norm(val)[:110], "containment of an interval is not decided from where it starts plus how long it is (e.g. only its two end points are tested): an argument that runs across the gap of the interval is reported as contained although its middle is outside", qualname="AngleInterval.contains")
     if n_sub < 1:
@@ -567,11 +577,22 @@ def run(repo, res, tier):
         return TupV([NS, NE])
 
     def length_fact(too_long):
+        # the case: the normalised interval is exactly one full turn long (too long: a length of 2pi is not admitted) /
+        # just short of it.  Compared with a number, the length answers by its value; with anything else by the case.
+        length = TWO_PI if too_long else TWO_PI - 1e-9
+
         def extra(kind, x, y):
-            if isinstance(x, Term) and same(x, Term("-", [NE, NS])) and kind in ("Lt", "LtE", "Gt", "GtE"):
-                return {"Lt": not too_long, "LtE": not too_long, "Gt": too_long, "GtE": too_long}[kind]
-            if isinstance(y, Term) and same(y, Term("-", [NE, NS])) and kind in ("Lt", "LtE", "Gt", "GtE"):
-                return {"Gt": not too_long, "GtE": not too_long, "Lt": too_long, "LtE": too_long}[kind]
+            is_len = lambda v: isinstance(v, Term) and same(v, Term("-", [NE, NS]))
+            numv = lambda v: isinstance(v, (int, float)) and not isinstance(v, bool)
+            if kind in ("Lt", "LtE", "Gt", "GtE"):
+                if is_len(x) and numv(y):
+                    return {"Lt": length < y, "LtE": length <= y, "Gt": length > y, "GtE": length >= y}[kind]
+                if is_len(y) and numv(x):
+                    return {"Lt": x < length, "LtE": x <= length, "Gt": x > length, "GtE": x >= length}[kind]
+                if is_len(x):
+                    return {"Lt": not too_long, "LtE": not too_long, "Gt": too_long, "GtE": too_long}[kind]
+                if is_len(y):
+                    return {"Gt": not too_long, "GtE": not too_long, "Lt": too_long, "LtE": too_long}[kind]
             return None
 
         return extra
